@@ -164,6 +164,10 @@ func checkC07ID(p *Prog, r *Report, ru *Rule, sh *ssa.Function) {
 			if b, ok := constInt(call.Common().Args[1]); ok && b >= 2 && b <= 36 {
 				safe = true
 			}
+		case "(*math/big.Int).Text":
+			if b, ok := constInt(call.Common().Args[1]); ok && b >= 2 && b <= 36 {
+				safe = true /* digits and lower-case letters */
+			}
 		case "encoding/hex.EncodeToString":
 			safe = true
 		case "(*encoding/base64.Encoding).EncodeToString":
@@ -711,7 +715,7 @@ func checkC07NoScriptOnError(p *Prog, r *Report, ru *Rule, sh *ssa.Function) {
 			continue
 		}
 		for _, t := range nilTestsOf(sh, g.v) {
-			from := Loc{t.If.Block().Succs[1-t.NilSucc], -1}
+			from := edgeLoc(t.If.Block(), 1-t.NilSucc)
 			miss := reachQ{From: from, Target: isReturn, Block: func(i ssa.Instruction) bool {
 				c := callCommon(i)
 				if nil == c {
